@@ -9,9 +9,10 @@ constants and is decided:
 R10.1 INT_B64 is the RFC 4648 base64 alphabet in order and B64_INT its
       inverse; VLQ_SHIFT = 5, VLQ_CONT = 1 << VLQ_SHIFT, VLQ_BASE_MASK =
       VLQ_CONT - 1, VLQ_MULTI_CHAR = VLQ_CONT / 2; encoder and decoder use
-      these names (no diverging literal) and the sign lives in bit 0 on
-      both sides; encode_mappings / decode_mappings use the same
-      separators
+      these names (no diverging literal); encode_mappings /
+      decode_mappings use the same separators.  (Expression-shape rules
+      such as "the sign is shifted into bit 0" are deliberately not
+      checked: they would fire on behaviour-preserving rewrites.)
 """
 from __future__ import annotations
 
@@ -48,7 +49,7 @@ def run(report, index, tier):
         'encode/decode inverse law for every integer and canonicity of '
         'every encoding (arithmetic; out of reach of static analysis)')
     r = report.rule('R10.1', 'canonical alphabet/constants; writer and '
-                    'reader agree', floor=12)
+                    'reader agree', floor=10)
     int_b64 = need_const(m, 'INT_B64', types=str)
     r.check(int_b64 == RFC4648, 'INT_B64', 'INT_B64',
             'INT_B64 is not the RFC 4648 base64 alphabet in order: first '
@@ -96,17 +97,6 @@ def run(report, index, tier):
     r.check(set(di) <= {0, 1, -1}, 'decoder literals', 'vlq_decoder',
             'vlq_decoder uses the integer literal(s) %s besides 0/1' %
             sorted(set(di) - {0, 1, -1}), where='vlq.py:vlq_decoder')
-    # sign in bit 0 on both sides
-    et = ast.unparse(enc)
-    dt = ast.unparse(dec)
-    r.check('<< 1' in et and ('+ 1' in et or '| 1' in et) and 'i < 0' in et,
-            'encoder sign bit', 'encode_vlq',
-            'the encoder does not shift the magnitude left by one and set '
-            'bit 0 for negative numbers', where='vlq.py:encode_vlq')
-    r.check(('1 & i' in dt or 'i & 1' in dt) and '>> 1' in dt,
-            'decoder sign bit', 'vlq_decoder',
-            'the decoder does not take the sign from bit 0 and shift the '
-            'magnitude right by one', where='vlq.py:vlq_decoder')
     # separators
     em = need_function(m, 'encode_mappings')
     dm = need_function(m, 'decode_mappings')
@@ -118,12 +108,5 @@ def run(report, index, tier):
             'mapping separators', 'encode_mappings / decode_mappings',
             'writer separators %s vs reader separators %s: Source Map V3 '
             'uses `,` between segments and `;` between lines' % (es, ds),
-            where='vlq.py')
-    et = ast.unparse(em)
-    dt = ast.unparse(dm)
-    r.check("';'.join(" in et and "','.join(" in et and
-            ".split(';')" in dt and ".split(',')" in dt,
-            'separator nesting', 'encode_mappings / decode_mappings',
-            'lines must be joined/split by `;` and segments by `,`',
             where='vlq.py')
     report.trusted_base += ['CPython ast', 'constant folder']
